@@ -98,7 +98,8 @@ Section Bundle.
     (forall y, next s <= y -> (kind_of s1 y <> Some KPin -> ipwire s1 y = None) /\ (kind_of s1 y <> Some KWire -> wpins s1 y = []) /\
                               (kind_of s1 y <> Some KInstance -> ipins s1 y = [] /\ iref s1 y = None)) /\
     (forall y k, next s <= y -> kind_of s1 y = Some k -> (k = KPin \/ k = KWire \/ k = KInstance) -> k = lk /\ In y (kids s1 rl p')) /\
-    Forall2 (fun i i' => In (i, i') m1) (kids s rl p) (kids s1 rl p').
+    Forall2 (fun i i' => In (i, i') m1) (kids s rl p) (kids s1 rl p') /\
+    (forall y, next s1 <= y -> kind_of s1 y = None) /\ (forall y, y < next s -> kind_of s1 y = kind_of s y).
   Proof.
     intros HI F FT0 T0 Hp Hkp Hrp Hrc E. pose proof (inv_a _ HI) as I1.
     pose proof (above_of_fresh s F) as Ab. pose proof (parlt_of_inv1a s I1 Ab) as Pl.
@@ -113,7 +114,7 @@ Section Bundle.
     destruct (Hstep s s s [] p s1 m1 p' (pk_of_st s s [] (st_start s FT0 F)) Hpre Hnd (fun y _ H => H) E) as [PK1 [Ky [_ [Hpp [_ Himg]]]]].
     split; [exact A|]. split; [exact B|]. split; [exact C|]. split; [exact D|]. split; [exact P1|]. split; [exact Ab1|].
     split; [intros y Hy; destruct (pk_old _ _ _ _ PK1 y Hy) as [X1 [X2 [X3 [_ X5]]]]; repeat split; assumption|].
-    split; [intros y Hy; apply (pk_def _ _ _ _ PK1 y Hy)|]. split; [|apply (proj2 (proj2 Himg))].
+    split; [intros y Hy; apply (pk_def _ _ _ _ PK1 y Hy)|]. split; [|split; [apply (proj2 (proj2 Himg))|split; [intros y Hy; apply (pk_fresh _ _ _ _ PK1 y Hy)|intros y Hy; apply (pk_old _ _ _ _ PK1 y Hy)]]].
     intros y k Hy Hk Hk3.
     assert (Hlt : y < next s1). { destruct (Nat.lt_ge_cases y (next s1)) as [Hl|Hge]; [exact Hl|]. rewrite (pk_fresh _ _ _ _ PK1 y Hge) in Hk. discriminate. }
     assert (Hcov : exists a, In (a, y) m1).
